@@ -1,0 +1,22 @@
+// This Source Code Form is subject to the terms of the Mozilla Public
+// License, v. 2.0. If a copy of the MPL was not distributed with this
+// file, You can obtain one at http://mozilla.org/MPL/2.0/.
+
+//go:build verif
+
+package qruntime
+
+import (
+	"github.com/cosi-project/runtime/pkg/controller/runtime/internal/qruntime/internal/queue"
+)
+
+// VerifQueue re-exports the internal reconcile queue for the verification harness.
+type VerifQueue[K comparable, V any] = queue.Queue[K, V]
+
+// VerifQueueItem re-exports the internal reconcile queue item for the verification harness.
+type VerifQueueItem[K comparable, V any] = queue.Item[K, V]
+
+// NewVerifQueue creates the internal reconcile queue.
+func NewVerifQueue[K comparable, V any]() *VerifQueue[K, V] {
+	return queue.NewQueue[K, V]()
+}
